@@ -13,9 +13,7 @@ macro_rules! e {
 macro_rules! ensure { ($cond:expr, $($t:tt)*) => { if !$cond { return Err(e!($($t)*)); } }; }
 verus! {
 //@include shims/bytes.rs
-//@include shims/std_gaps.rs
-pub assume_specification<T, U, F: FnOnce(T) -> U> [Option::<T>::map_or] (o: Option<T>, d: U, f: F) -> (r: U)
-    ensures match o { Some(v) => call_ensures(f, (v,), r), None => r == d };
+//@include shims/std_wide.rs
 pub open spec fn int_pow(b: int, e: nat) -> int decreases e { if e == 0 { 1 } else { b * int_pow(b, (e - 1) as nat) } }
 pub assume_specification [u32::pow] (b: u32, e: u32) -> (r: u32)
     requires int_pow(b as int, e as nat) <= u32::MAX   // overflow panics in debug builds
@@ -23,9 +21,6 @@ pub assume_specification [u32::pow] (b: u32, e: u32) -> (r: u32)
 
 pub struct StreamError;
 pub struct Duration;
-// String::len is the UTF-8 byte length
-pub uninterp spec fn utf8_len(s: Seq<char>) -> nat;
-pub assume_specification [std::string::String::len] (s: &String) -> (r: usize) ensures r == utf8_len(s@);
 //@item iroh-relay/src/protos/relay.rs const MAX_PACKET_SIZE
 //@item iroh-relay/src/protos/relay.rs struct Datagrams
 //@include shims/relay_wire.rs
